@@ -48,6 +48,7 @@ type w7Link struct {
 	last   int64
 	upName string
 	behind bool
+	evs    []tlmetadata.Event // what the loader returned
 }
 
 type w7Replica struct {
@@ -70,7 +71,9 @@ type w7Replica struct {
 	leftNames map[string]bool
 	// newest delivered version of any metric carrying the name (who claimed the name last)
 	nameClaim map[string]int64
-	reloads   int
+	// names for which an index rebuild handed the name to a metric that is not its newest holder
+	rebuiltStale map[string]bool
+	reloads      int
 }
 
 type w7Agg struct {
@@ -90,6 +93,9 @@ type w7World struct {
 	switching                                          bool
 	link                                               w7Link
 	memo                                               map[w7MemoKey]tlmetadata.Event
+	// entities for which some compact journal dropped a delivered event because its compact
+	// content equalled what it had (it keeps the older version number)
+	skipped map[w7Key]bool
 }
 
 func TestVerifW7(t *testing.T) {
@@ -99,7 +105,7 @@ func TestVerifW7(t *testing.T) {
 
 func w7Exec(t *testing.T, r *verifsim.Run) {
 	c := r.C
-	w := &w7World{r: r, c: c, memo: map[w7MemoKey]tlmetadata.Event{}}
+	w := &w7World{r: r, c: c, memo: map[w7MemoKey]tlmetadata.Event{}, skipped: map[w7Key]bool{}}
 	nAgg := 1 + c.Intn(2, "aggregators")
 	nAgents := 2 + c.Intn(3, "agents")
 	w.faulty = c.Intn(3, "faulty") != 0 // one third of the runs are fault free
@@ -115,6 +121,9 @@ func w7Exec(t *testing.T, r *verifsim.Run) {
 	ops := 4 + c.Intn(37, "ops")
 	steps := ops*2 + c.Intn(120, "steps")
 	w.src = newW7Source(w)
+	if w.faulty && w.src.bigEvents { // files of several chunks are there to be damaged
+		w.fCrash, w.fDamage = true, true
+	}
 	r.Config["aggregators"] = nAgg
 	r.Config["agents"] = nAgents
 	r.Config["faulty"] = w.faulty
@@ -232,6 +241,7 @@ func (rep *w7Replica) load(content []byte) error {
 	rep.delivered = map[int32]tlmetadata.Event{}
 	rep.leftNames = map[string]bool{}
 	rep.nameClaim = map[string]int64{}
+	rep.rebuiltStale = map[string]bool{}
 	var err error
 	rep.w.guard("load "+rep.name, func() {
 		rep.j, err = LoadJournalFastSlice(rep.file, 0, rep.compactFlag, []ApplyEvent{rep.apply})
@@ -307,6 +317,13 @@ func (rep *w7Replica) apply(evs []tlmetadata.Event) {
 		}
 	}
 	rep.st = cand
+	for _, n := range dups {
+		hs := rep.holders(n)
+		if m := cand.metricsByName[n]; m != nil && int64(m.MetricID) != hs[len(hs)-1].Id {
+			rep.rebuiltStale[n] = true
+			w.r.Probe("rebuild_gave_name_to_stale_holder")
+		}
+	}
 	w.r.Event(rep.name, "rebuild with duplicate names %v want_stale=%v -> %s", dups, wantStale, got)
 }
 
@@ -445,6 +462,12 @@ func (rep *w7Replica) loader(_ context.Context, version int64, returnIfEmpty boo
 		w.r.Fault("response_truncated")
 	}
 	lk.got = len(evs)
+	lk.evs = append([]tlmetadata.Event(nil), evs...)
+	for i, e := range evs {
+		if e.EventType == format.MetricEvent && e.Name == format.StatshouseJournalDump && i+1 < len(evs) {
+			w.r.Probe("dump_event_cuts_batch")
+		}
+	}
 	if len(evs) > 0 {
 		lk.first, lk.last = evs[0].Version, evs[len(evs)-1].Version
 		for i := 1; i < len(evs); i++ {
@@ -500,6 +523,17 @@ func (w *w7World) step(rep *w7Replica, drain bool) (fin bool, changed bool, err 
 	})
 	after := rep.snap()
 	lk = w.link
+	if rep.compactFlag && err == nil {
+		for _, e := range lk.evs {
+			if e.EventType == format.DashboardEvent || e.EventType == format.PromConfigEvent {
+				continue
+			}
+			if have, ok := rep.j.journal[journalEventID{typ: e.EventType, id: e.Id}]; ok && have.Version < e.Version {
+				w.skipped[w7Key{e.EventType, e.Id}] = true
+				w.r.Probe("compact_journal_kept_older_version_of_equal_content")
+			}
+		}
+	}
 	changed = before != after
 	if before.dead && !after.dead {
 		w.r.Probe("dead_journal_recovered")
@@ -544,6 +578,12 @@ func (w *w7World) save(rep *w7Replica) {
 // possibly damaged.
 func (w *w7World) restart(rep *w7Replica) {
 	c := w.c
+	if c.Intn(3, "save_before_restart") != 0 { // orderly shutdown saves first; a kill does not
+		w.save(rep)
+		if w.r.Failed() {
+			return
+		}
+	}
 	var img []byte
 	which := "none"
 	if len(rep.images) > 0 {
